@@ -115,6 +115,20 @@ type Config struct {
 	Strict bool
 	// ManualStart: senders wait for Run.StartSenders.
 	ManualStart bool
+	// HsDecide is the fate decider during the handshake (nil: no faults).
+	HsDecide vnet.Decider
+	// StaleC / StaleS: raw packets of an "earlier connection" queued towards
+	// the client / the server before the handshake starts.
+	StaleC, StaleS [][]byte
+	// HsPatience: how long the harness waits for both handshakes before it
+	// cancels them (default 60 s).
+	HsPatience time.Duration
+	// StartDelay: how long the client / the server waits before it starts
+	// its handshake.
+	StartDelay [2]time.Duration
+	// HsProbe: after the handshake exchange one message each way and
+	// record the results ("hsResult").
+	HsProbe bool
 	// RealTime: the run is not inside a synctest bubble.
 	RealTime bool
 	// NoRecv: the application of that endpoint (client, server) never calls
